@@ -755,7 +755,10 @@ class SStr(Sym):
             return mk_bool(self.t == as_str_term(o))
         if isinstance(o, SV):
             return o.__eq__(self)
-        return False if not isinstance(o, Sym) else NotImplemented
+        if o is None or isinstance(o, (int, float, bool, tuple, list, dict, set, frozenset, bytes)):
+            return False
+        # like str.__eq__: not a string => NotImplemented, so that the other operand's (reflected) __eq__ is tried
+        return NotImplemented
 
     def __ne__(self, o):
         r = self.__eq__(o)
